@@ -256,7 +256,8 @@ def stateAfter : VState → List Visit → VState
   | s, [] => s
   | s, v :: vs => stateAfter (s.update v.node) vs
 
-def fileCtx : Ctx := ⟨some 0, some 0, [0, 1]⟩
+/-- the `File` pseudo-context of `node_visitor.process` (after the /repo fix recorded as C02-first-line-nosec-reaches-file-findings: its range is the placeholder line 0 only, so a comment on line 1 does not apply to whole-file findings elsewhere) -/
+def fileCtx : Ctx := ⟨some 0, some 0, [0]⟩
 def fileNode : Node := .mk "File".toList none [] []
 
 /-- Input of a per-file scan -/
